@@ -855,7 +855,7 @@ structure J (req r : Dgram) (s0 : Server) (ph : Ph) (y : Sys) : Prop where
   hcl : ∀ p ∈ y.cLog, p.2 = req ∨ p.2.type = .ack ∨ p.2.type = .rst
   hsl : ∀ p ∈ y.sLog, p.2 = r ∨ p.2 = emptyAck req.mid
 
-theorem exchange_of_server {s0 : Server} {req : Dgram} (hr : SReq req) (hp : s0.pers ≠ .dn) :
+theorem exchange_of_server {s0 : Server} {req : Dgram} (hr : SReq req) (hp : s0.pers ≠ .dn) (hpa : s0.pers ≠ .da) :
     Exchange req (respFor s0 req) := by
   refine ⟨hr.hcon, ?_, ?_, ?_, ?_⟩ <;> cases hpers : s0.pers <;> simp_all [respFor, isResponse]
 
@@ -1334,14 +1334,14 @@ theorem server_without_dedup_witness :
     does: `exactly_once_piggybacked`.  Full statement wanted: the same without `SysNoLate` and without `SQuiet.hdedup`;
     false for the pinned code. -/
 theorem exactly_once_closed_loop_partial {req : Dgram} (hr : SReq req) (s0 : Server) (hq : SQuiet s0 req)
-    (hp : s0.pers ≠ .dn) (c0 : Client) (hidle : c0.L = Idle) (hfresh : fresh c0 (respFor s0 req))
+    (hp : s0.pers ≠ .dn) (hpa : s0.pers ≠ .da) (c0 : Client) (hidle : c0.L = Idle) (hfresh : fresh c0 (respFor s0 req))
     (now0 T Δ : Nat) (es : List SysEv) (hok : (Sys.start c0 s0 now0 req T).RunOk Δ es)
     (hlate : SysNoLate (respFor s0 req) (Sys.start c0 s0 now0 req T) es) :
     nRsp ((Sys.start c0 s0 now0 req T).run es).2 + nNack ((Sys.start c0 s0 now0 req T).run es).2 ≤ 1 ∧
     (((Sys.start c0 s0 now0 req T).run es).1.c.L.sendq = [] →
       nRsp ((Sys.start c0 s0 now0 req T).run es).2 + nNack ((Sys.start c0 s0 now0 req T).run es).2 = 1 ∨
       ∀ e ∈ es, ¬ isRspS (respFor s0 req) e) := by
-  obtain ⟨ph', hj, h1, h2, h3⟩ := sys_run (exchange_of_server hr hp) hr hq rfl Δ es .waiting _
+  obtain ⟨ph', hj, h1, h2, h3⟩ := sys_run (exchange_of_server hr hp hpa) hr hq rfl Δ es .waiting _
     (start_J hr hq c0 hidle hfresh now0 T) hok hlate (fun h => by cases h)
   exact conclude_of_phase hj h1 h2 h3
 
@@ -1362,7 +1362,8 @@ theorem exactly_once_piggybacked {req : Dgram} (hr : SReq req) (s0 : Server) (hq
       nRsp ((Sys.start c0 s0 now0 req T).run es).2 + nNack ((Sys.start c0 s0 now0 req T).run es).2 = 1 ∨
       ∀ e ∈ es, ¬ isRspS (respFor s0 req) e) := by
   have hnd : s0.pers ≠ .dn := by rw [hp]; decide
-  obtain ⟨ph', hj, h1, h2, h3, _⟩ := sys_run_pb (exchange_of_server hr hnd) hr hq rfl hp hT hΔ es .waiting _
+  have hna : s0.pers ≠ .da := by rw [hp]; decide
+  obtain ⟨ph', hj, h1, h2, h3, _⟩ := sys_run_pb (exchange_of_server hr hnd hna) hr hq rfl hp hT hΔ es .waiting _
     (start_J hr hq c0 hidle hfresh now0 T) (start_TI hr c0 hidle now0 T Δ) hok
   exact conclude_of_phase hj h1 h2 h3
 
@@ -1394,7 +1395,8 @@ theorem exactly_once_piggybacked_quiet {req : Dgram} (hr : SReq req) (s0 : Serve
     (hquiet : ((Sys.start c0 s0 now0 req T).run es).1.c.L.sendq = []) :
     nRsp ((Sys.start c0 s0 now0 req T).run es).2 + nNack ((Sys.start c0 s0 now0 req T).run es).2 = 1 := by
   have hnd : s0.pers ≠ .dn := by rw [hp]; decide
-  obtain ⟨ph', hj, h1, h2, _, h4⟩ := sys_run_pb (exchange_of_server hr hnd) hr hq rfl hp hT hΔ es .waiting _
+  have hna : s0.pers ≠ .da := by rw [hp]; decide
+  obtain ⟨ph', hj, h1, h2, _, h4⟩ := sys_run_pb (exchange_of_server hr hnd hna) hr hq rfl hp hT hΔ es .waiting _
     (start_J hr hq c0 hidle hfresh now0 T) (start_TI hr c0 hidle now0 T Δ) hok
   cases ph' with
   | waiting =>
@@ -1445,6 +1447,35 @@ theorem run_con_response_acked_at (c : Client) (pre post : List CEvent) (now : N
 theorem run_duplicates_not_redelivered (c : Client) (es : List CEvent) (hL : LOk c.L) (h : RunD1 c es) :
     handlerCalls (Client.run c es).2 = expectedCalls c.lastCon c.lastAck es := run_handlerCalls es c hL h
 
+/-- **never twice** (whole runs, D1, ANY datagrams — in particular ACK-typed responses that match nothing on the send
+    queue: a stale copy, or the "response as an ACK with a message id of its own after an Empty ACK" of a peer outside
+    RFC 7252, which handle_response accepts by token): the response handler is never handed the same ACK-typed message
+    twice in a row, nor the same Confirmable one — between two handler calls carrying the same message id there is a
+    call with another message of that type, and the first call differs from what the filter slot held at the start.
+    With a server that produces ONE response message (D2) this is "the response is delivered at most once". -/
+theorem response_never_delivered_twice_in_a_row (c : Client) (es : List CEvent) (hL : LOk c.L) (h : RunD1 c es) :
+    noRepeat c.lastAck (callMids .ack (handlerCalls (Client.run c es).2)) ∧
+    noRepeat c.lastCon (callMids .con (handlerCalls (Client.run c es).2)) := by
+  rw [run_handlerCalls es c hL h]
+  exact ⟨expectedCalls_ack_noRepeat es _ _, expectedCalls_con_noRepeat es _ _⟩
+
+/-- **… at the point of arrival**: wherever in a run an ACK-typed response arrives — whether or not it took a request
+    off the send queue — the handler is called there iff its message id differs from that of the previous ACK-typed
+    response received in the run (however long ago, whatever else arrived in between). -/
+theorem run_ack_response_at (c : Client) (pre post : List CEvent) (now : Nat) (d : Dgram) (ok : Bool)
+    (hL : LOk c.L) (h : RunD1 c (pre ++ .rx now d ok :: post)) (hd : d.type = .ack) (hr : isResponse d.code = true) :
+    (Client.run c (pre ++ .rx now d ok :: post)).2 =
+      (Client.run c pre).2 ++
+      (if lastAckAfter c.lastAck pre = some d.mid then [] else [Out.callResponse d ok]) ++
+      (Client.run ((Client.run c pre).1.rx now d ok).1 post).2 := by
+  have h1 := ((RunD1_append pre _ c).mp h).1
+  have hL1 := run_LOk pre c hL h1
+  have hout := (rx_ack_out (Client.run c pre).1 now d ok (LOk_delayq hL1) hd hr).1
+  rw [Client.run_append, Client.run_cons]
+  simp only [Client.step]
+  rw [hout, run_lastAck pre c hL h1]
+  simp only [List.append_assoc]
+
 /-! ### the hypotheses of the new theorems are satisfiable (concrete non-trivial instances, by evaluation) -/
 
 instance (Δ : Nat) (y : Sys) : (e : SysEv) → Decidable (y.Net Δ e)
@@ -1470,6 +1501,17 @@ instance decSysNoLate (r : Dgram) : (y : Sys) → (es : List SysEv) → Decidabl
   | y, e :: es =>
     @instDecidableAnd (nNack (y.step e).2 > 0 → ∀ e' ∈ es, ¬ isRspS r e') (SysNoLate r (y.step e).1 es) inferInstance
       (decSysNoLate r (y.step e).1 es)
+
+instance (r : Dgram) : (e : CEvent) → Decidable (isRsp r e)
+  | .rx _ d _ => inferInstanceAs (Decidable (d = r))
+  | .appSend _ _ _ => isFalse (fun h => h)
+  | .tick _ => isFalse (fun h => h)
+
+instance decNoLate (r : Dgram) : (c : Client) → (es : List CEvent) → Decidable (NoLate r c es)
+  | _, [] => isTrue trivial
+  | c, e :: es =>
+    @instDecidableAnd (nNack (c.step e).2 > 0 → ∀ e' ∈ es, ¬ isRsp r e') (NoLate r (c.step e).1 es) inferInstance
+      (decNoLate r (c.step e).1 es)
 
 instance decTimerRuns : (c : Client) → (ts : List Nat) → Decidable (TimerRuns c ts)
   | _, [] => isTrue trivial
@@ -1499,11 +1541,11 @@ example :
     let r := respFor wAc wReq
     let es : List SysEv := [.toS 1000 1100 wReq, .toC 1100 1200 (emptyAck 1001) true, .sTick 1400, .toC 1400 1500 r true,
                             .toS 1500 1600 (emptyAck 5001), .toC 1400 1700 r true, .sTick 5000, .cTick 5000]
-    SReq wReq ∧ SQuiet wAc wReq ∧ wAc.pers ≠ .dn ∧ fresh {} r ∧
+    SReq wReq ∧ SQuiet wAc wReq ∧ wAc.pers ≠ .dn ∧ wAc.pers ≠ .da ∧ fresh {} r ∧
     (Sys.start {} wAc 1000 wReq 2000).RunOk ackTimeout es ∧ SysNoLate r (Sys.start {} wAc 1000 wReq 2000) es ∧
     nRsp ((Sys.start {} wAc 1000 wReq 2000).run es).2 = 1 ∧ nNack ((Sys.start {} wAc 1000 wReq 2000).run es).2 = 0 ∧
     ((Sys.start {} wAc 1000 wReq 2000).run es).1.cLog.length = 3 := by
-  refine ⟨⟨by decide, by decide⟩, ⟨by decide, by decide, by decide, by decide, by decide⟩, by decide,
+  refine ⟨⟨by decide, by decide⟩, ⟨by decide, by decide, by decide, by decide, by decide⟩, by decide, by decide,
     ⟨fun _ => by decide, fun _ => by decide⟩, by decide, by decide, by decide, by decide, by decide⟩
 
 /-- `concludes_when_quiet_partial`: every datagram is lost (no ACK ever arrives), the clock runs: the request is
@@ -1522,6 +1564,41 @@ example :
   · intro e he
     simp only [List.mem_cons, List.mem_nil_iff, or_false] at he
     rcases he with rfl | rfl <;> exact fun h => h
+
+/-- `response_never_delivered_twice_in_a_row` / `run_ack_response_at`: the request is answered by an Empty ACK, then
+    by an ACK-typed response with a message id of its own (5001: it matches nothing on the send queue), whose duplicate
+    arrives 700 ms later: admissible under D1, ONE handler call; and after a different ACK-typed message (5002) the
+    single slot lets a third copy of 5001 through — never twice IN A ROW is exactly what the filter gives -/
+example :
+    let r : Dgram := { type := .ack, code := 69, mid := 5001, token := [0xc0, 7] }
+    let r2 : Dgram := { type := .ack, code := 69, mid := 5002, token := [0xc0, 7] }
+    let es : List CEvent := [.appSend 1000 wReq 2000, .rx 1000 (emptyAck 1001) true, .rx 1300 r true, .rx 2000 r true]
+    RunD1 {} es ∧ RunD1 {} (es ++ [.rx 2100 r2 true, .rx 2200 r true]) ∧
+    handlerCalls (Client.run {} es).2 = [(r, true)] ∧ (Client.run {} es).1.L = Idle ∧
+    callMids .ack (handlerCalls (Client.run {} (es ++ [.rx 2100 r2 true, .rx 2200 r true])).2) = [5001, 5002, 5001] ∧
+    noRepeat none [5001, 5002, 5001] ∧ ¬ noRepeat none [5001, 5001] := by
+  decide
+
+/-- the zero-length token (RFC 7252 5.3.1) is a token like any other: `Exchange`, `exactly_once_partial`,
+    `response_ends_exchange` and `response_stops_retransmission` do not restrict `req.token`.  The Empty ACK is lost, the
+    separate CON response (no token) arrives while the request (no token) is still on the send queue: one handler
+    call, the response is acknowledged, the layer is idle — the timers that follow transmit nothing and raise no NACK -/
+example :
+    let req : Dgram := { type := .con, code := 1, mid := 1001, token := [] }
+    let r : Dgram := { type := .con, code := 69, mid := 0x7001, token := [] }
+    let es : List CEvent := [.rx 1100 r true, .tick 3000, .tick 7000, .tick 63000]
+    Exchange req r ∧ (∀ e ∈ es, ExEv req r e) ∧ NoLate r (({} : Client).appSend 1000 req 2000).1 es ∧
+    (Client.run {} (.appSend 1000 req 2000 :: es)).2 =
+      [Out.tx req, Out.callResponse r true, Out.tx { type := .ack, code := 0, mid := 0x7001, token := [] }] ∧
+    (Client.run {} (.appSend 1000 req 2000 :: es)).1.L = Idle := by
+  refine ⟨⟨rfl, by decide, rfl, Or.inr rfl, fun h => by cases h⟩, ?_, by decide, by decide, by decide⟩
+  intro e he
+  simp only [List.mem_cons, List.mem_nil_iff, or_false] at he
+  rcases he with rfl | rfl | rfl | rfl
+  · exact .response _ _
+  · exact .tick _
+  · exact .tick _
+  · exact .tick _
 
 /-- D5, the case the fairness hypothesis of `concludes_when_quiet_partial` excludes: the empty ACK arrived, every copy
     of the separate response was lost — the client has nothing left to retransmit and the request stays open -/
